@@ -132,7 +132,10 @@ def run(ctx):
 def replay(ctx, case):
     acc = Acc()
     spec = tuple((t, tuple(sorted(a.items()))) for t, a in case["f"])
-    f = C.build(spec)
+    if spec and spec[-1][0].startswith("<") and spec[-1][0].endswith(">"):
+        f = C.build_repeated(spec[:-1], spec[-1][0][1:-1])[0]
+    else:
+        f = C.build(spec)
     ns = case["new"]
     ns = (ns[0], ns[1] if ns[0] == "str" else tuple((t, tuple(map(tuple, a))) for t, a in ns[1]))
     ni = NEW_SPECS.index(ns)
